@@ -20,6 +20,7 @@ type Outcome struct {
 	Cond  *smt.Term
 	Val   Value
 	Panic string           // non-empty: this outcome panics with that message
+	Cut   string           // non-empty: this outcome lies outside the encoded fragment; the path is dropped and the reason recorded as an assumption
 	Then  func(s *State)   // optional state update applied to the child
 }
 
@@ -785,6 +786,11 @@ func (x *Exec) forkOnL(s *State, outs []Outcome, assign func(c *State, o Outcome
 		if !o.Cond.IsConst() {
 			// implied by the path condition; no need to record it
 		}
+		if o.Cut != "" {
+			x.Cut++
+			x.noteAssume("cut: " + o.Cut)
+			return stepDead, nil, stopPoint{}
+		}
 		if o.Then != nil {
 			o.Then(s)
 		}
@@ -802,6 +808,14 @@ func (x *Exec) forkOnL(s *State, outs []Outcome, assign func(c *State, o Outcome
 	fstop := x.forkStop(s)
 	var children []*State
 	for i, o := range feas {
+		if o.Cut != "" {
+			x.Cut++
+			x.noteAssume("cut: " + o.Cut)
+			if i == len(feas)-1 && len(children) == 0 {
+				return stepDead, nil, stopPoint{}
+			}
+			continue
+		}
 		var c *State
 		if i == len(feas)-1 {
 			c = s
@@ -1054,7 +1068,7 @@ func (x *Exec) step(s *State) (stepResult, []*State, stopPoint) {
 		unsupported("instruction %T", ins)
 	}
 	outs := x.eval(s, f, v)
-	if len(outs) == 1 && outs[0].Cond == smt.True && outs[0].Panic == "" {
+	if len(outs) == 1 && outs[0].Cond == smt.True && outs[0].Panic == "" && outs[0].Cut == "" {
 		if outs[0].Then != nil {
 			outs[0].Then(s)
 		}
@@ -1104,7 +1118,11 @@ func (x *Exec) eval(s *State, f *Frame, v ssa.Value) []Outcome {
 			}
 			val := s.load(p)
 			if o, ok := val.(Opaque); ok {
-				unsupported("load of unmodelled value: %s (%s)", o.Why, ins.X)
+				// an unmodelled string (an error description built by Sprintf) may be copied and
+				// concatenated; any other use of it stops the job
+				if b, isB := ins.Type().Underlying().(*types.Basic); !isB || b.Info()&types.IsString == 0 {
+					unsupported("load of unmodelled value: %s (%s)", o.Why, ins.X)
+				}
 			}
 			return one(val)
 		case token.NOT:
@@ -1185,6 +1203,9 @@ func (x *Exec) eval(s *State, f *Frame, v ssa.Value) []Outcome {
 		return x.index(s, x.get(f, ins.X), x.idx64(f, ins.Index), ins.X.Type())
 
 	case *ssa.IndexAddr:
+		if outs := x.indexAddrStrings(s, x.get(f, ins.X), x.idx64(f, ins.Index), ins); outs != nil {
+			return outs
+		}
 		return x.indexAddr(s, x.get(f, ins.X), x.idx64(f, ins.Index))
 
 	case *ssa.Lookup:
@@ -1347,6 +1368,16 @@ func (x *Exec) binop(s *State, op token.Token, xt types.Type, a, b Value, yt typ
 		return one(x.equal(a, b))
 	case token.NEQ:
 		return one(c.Not(x.equal(a, b)))
+	}
+	if op == token.ADD {
+		if o, ok := a.(Opaque); ok {
+			return one(o)
+		}
+		if o, ok := b.(Opaque); ok {
+			if _, isS := a.(Str); isS {
+				return one(o)
+			}
+		}
 	}
 	if as, ok := a.(Str); ok {
 		bs := b.(Str)
@@ -1616,6 +1647,17 @@ func (x *Exec) indexElems(s *State, elems []Value, idx *smt.Term) []Outcome {
 		}
 		return []Outcome{{Cond: inb, Val: x.tableSelect(ts, idx)}, oob}
 	}
+	// strings: one outcome per distinct length
+	if conds, strs, ok := x.strGroups(elems, idx); ok && len(elems) > 1 {
+		var outs []Outcome
+		for k := range conds {
+			outs = append(outs, Outcome{Cond: x.Ctx.And(inb, conds[k]), Val: strs[k]})
+		}
+		if inb != smt.True {
+			outs = append(outs, oob)
+		}
+		return outs
+	}
 	// otherwise fork over feasible positions
 	var outs []Outcome
 	for _, v := range x.concretizeUnder(s, idx, inb, 64) {
@@ -1626,6 +1668,101 @@ func (x *Exec) indexElems(s *State, elems []Value, idx *smt.Term) []Outcome {
 	}
 	if inb != smt.True {
 		outs = append(outs, oob)
+	}
+	return outs
+}
+
+// strGroups splits the positions of an array of strings by string length and returns, per
+// length, the condition "idx is one of those positions" and the string whose bytes select on idx.
+func (x *Exec) strGroups(elems []Value, idx *smt.Term) ([]*smt.Term, []Str, bool) {
+	c := x.Ctx
+	byLen := map[int][]int{}
+	var lens []int
+	for i, e := range elems {
+		st, ok := e.(Str)
+		if !ok {
+			return nil, nil, false
+		}
+		if _, seen := byLen[len(st.B)]; !seen {
+			lens = append(lens, len(st.B))
+		}
+		byLen[len(st.B)] = append(byLen[len(st.B)], i)
+	}
+	var conds []*smt.Term
+	var strs []Str
+	for _, l := range lens {
+		g := byLen[l]
+		cond := smt.False
+		hits := make([]*smt.Term, len(g))
+		for k, i := range g {
+			hits[k] = c.Eq(idx, smt.Const(idx.W, uint64(i)))
+			cond = c.Or(cond, hits[k])
+		}
+		out := Str{B: make([]*smt.Term, l)}
+		for j := 0; j < l; j++ {
+			acc := elems[g[0]].(Str).B[j]
+			for k := 1; k < len(g); k++ {
+				acc = c.Ite(hits[k], elems[g[k]].(Str).B[j], acc)
+			}
+			out.B[j] = acc
+		}
+		conds = append(conds, cond)
+		strs = append(strs, out)
+	}
+	return conds, strs, true
+}
+
+// indexAddrStrings handles &a[i] for an array or slice of strings with a symbolic index
+// when the address is only loaded from: one outcome per distinct string length, each
+// pointing at a fresh cell holding the string selected by the index. nil: not applicable.
+func (x *Exec) indexAddrStrings(s *State, xv Value, idx *smt.Term, ins *ssa.IndexAddr) []Outcome {
+	if idx.IsConst() {
+		return nil
+	}
+	for _, r := range *ins.Referrers() {
+		u, ok := r.(*ssa.UnOp)
+		if !ok || u.Op != token.MUL {
+			return nil
+		}
+	}
+	var elems []Value
+	switch xv := xv.(type) {
+	case Slice:
+		if xv.Obj == 0 {
+			return nil
+		}
+		arr, ok := s.load(Ptr{Obj: xv.Obj, Path: xv.Path}).(*ArrayVal)
+		if !ok {
+			return nil
+		}
+		elems = arr.E[xv.Off : xv.Off+xv.Len]
+	case Ptr:
+		if xv.Obj == 0 {
+			return nil
+		}
+		arr, ok := s.load(xv).(*ArrayVal)
+		if !ok {
+			return nil
+		}
+		elems = arr.E
+	default:
+		return nil
+	}
+	if len(elems) < 2 {
+		return nil
+	}
+	conds, strs, ok := x.strGroups(elems, idx)
+	if !ok {
+		return nil
+	}
+	inb := x.boundsOK(idx, len(elems))
+	var outs []Outcome
+	for k := range conds {
+		str := strs[k]
+		outs = append(outs, Outcome{Cond: x.Ctx.And(inb, conds[k]), Val: lazyVal{func(cs *State) Value { return Ptr{Obj: cs.alloc(str)} }}})
+	}
+	if inb != smt.True {
+		outs = append(outs, Outcome{Cond: x.Ctx.Not(inb), Panic: fmt.Sprintf("index out of range (symbolic index, length %d)", len(elems))})
 	}
 	return outs
 }
